@@ -83,6 +83,11 @@ def cmp_tt(t, want, name, tol=1e-10):
     return []
 
 
+def core_equal(c, ref):
+    """"exactly the corresponding core": equal up to rounding in the last digits"""
+    return bool(np.max(np.abs(c - ref)) <= 1e-12 * max(1.0, float(np.max(np.abs(ref))))) if c.size else True
+
+
 def replay(case):
     import scikit_tt.data_driven.transform as tf
     cfg, exp = case['cfg'], case['expect']
@@ -116,7 +121,7 @@ def replay(case):
             if not out:
                 for i in range(len(basis)):
                     c = tf.basis_decomposition(x, basis, single_core=i)
-                    if not isinstance(c, np.ndarray) or c.shape != t.cores[i].shape or not np.array_equal(c, t.cores[i]):
+                    if not isinstance(c, np.ndarray) or c.shape != t.cores[i].shape or not core_equal(c, t.cores[i]):
                         out.append(('general:single_core', 'single_core=%d differs from core %d of the full construction' % (i, i)))
                         break
             # HOCUR with ranks >= true ranks reproduces the same tensor (not defined for the zero tensor: rank 0)
@@ -149,7 +154,7 @@ def replay(case):
             if not out:
                 for i in range(x.shape[0]):
                     c = tf.coordinate_major(x, phi, single_core=i)
-                    if c.shape != t.cores[i].shape or not np.array_equal(c, t.cores[i]):
+                    if c.shape != t.cores[i].shape or not core_equal(c, t.cores[i]):
                         out.append(('cm:single_core', 'single_core=%d differs from core %d' % (i, i)))
                         break
         elif lay == 'fm':
@@ -160,7 +165,7 @@ def replay(case):
             if not out:
                 for i in range(len(phi)):
                     c = tf.function_major(x, phi, add_one=cfg['addone'], single_core=i)
-                    if c.shape != t.cores[i].shape or not np.array_equal(c, t.cores[i]):
+                    if c.shape != t.cores[i].shape or not core_equal(c, t.cores[i]):
                         out.append(('fm:single_core', 'single_core=%d differs from core %d' % (i, i)))
                         break
     except RuntimeError:
